@@ -94,3 +94,10 @@ for e in ENGINES:
         e["serves_properties"] = ["C08", "C09", "C14", "C15", "C17", "C18", "C19", "C20"]
     if e["name"] == "crashbox":
         e["serves_properties"] = ["C03", "C19"]
+
+
+PREEMPT_LEVEL = (" A second part (flow-preempt) adds statement-level scheduling points to the engine files named in lib/checks.py (lib/pointgen rewrites the overlay copy) and "
+                 "sweeps a single preemption over every dynamic statement occurrence of small 1x1 scenarios, exploring the environment schedule around it with the remaining deviation budget.")
+for _id in ("C01", "C02", "C04", "C06", "C11", "C13"):
+    TEXT[_id]["technique"] += " + single-preemption sweep over statement-level scheduling points (part flow-preempt)"
+    TEXT[_id]["level"] += PREEMPT_LEVEL
